@@ -21,6 +21,7 @@ UNITS = {
     'ingest': {'template': 'units/ingest/unit.rs', 'serves': ['C12', 'C13', 'C16'], 'min_verified': 10},
     'sampler': {'template': 'units/sampler/unit.rs', 'serves': ['C17'], 'min_verified': 36},
     'engine': {'template': 'units/engine/unit.rs', 'serves': ['C20'], 'min_verified': 18},
+    'trie': {'template': 'units/trie/unit.rs', 'serves': ['C20'], 'min_verified': 55},
     'vshreds': {'template': 'units/vshreds/unit.rs', 'serves': ['C11', 'C10'], 'min_verified': 10},
     'slot_state': {'template': 'units/slot_state/unit.rs', 'serves': ['C03', 'C04', 'C06'], 'min_verified': 93},
 }
@@ -45,6 +46,10 @@ KANI = {
          'target': 'src/execution/state.rs chunk_at: every 32-byte key, every depth 0..=51: the depth-th 5-bit group of the key (big-endian, zero padded), < 32, no out-of-bounds'},
         {'name': 'kani_child_index_is_rank', 'kind': 'complete', 'timeout': 300,
          'target': 'src/execution/state.rs Branch::child_index: every bitmap and chunk: None iff bit clear, else rank of the chunk'},
+        {'name': 'kani_chunks_determine_the_key', 'kind': 'complete', 'timeout': 600,
+         'target': 'src/execution/state.rs chunk_at: any two 32-byte keys that agree on all 52 chunks are equal (axiom_chunks_determine_key of unit trie)'},
+        {'name': 'kani_popcount_below_is_rank', 'kind': 'complete', 'timeout': 300,
+         'target': 'u32::count_ones on `bitmap & ((1 << chunk) - 1)`, every bitmap and chunk < 32: the number of set bits below the chunk (axiom_popcount_is_rank of unit trie)'},
     ],
     'C12': [
         {'name': 'kani_slice_commitment_injective', 'kind': 'complete', 'timeout': 300,
